@@ -5,6 +5,8 @@ import CBV.Model.C05
 import Mathlib.Data.List.Sort
 import Mathlib.Order.Basic
 
+set_option linter.unusedSectionVars false
+
 namespace CBV.C05
 
 /-! ### sort -/
@@ -391,6 +393,37 @@ theorem closeEquivOn_of_check (pts : List V3) (h : closeEquivCheck pts = true) :
       · rw [h] at hpq; cases hpq
       · rw [h] at hqr; cases hqr
     · exact h
+
+
+/-- every corner has a vertex (totality: the statement above is not vacuous) -/
+theorem vertexAt_total {S : P → Prop} (hc : CloseEquivOn close S) (slaves : List N) (ops : List (Op P N))
+    (hS : ∀ op ∈ ops, ∀ p ∈ op.pts, S p) (i c : Nat) (o : Op P N) (p : P)
+    (ho : ops[i]? = some o) (hp : o.pts[c]? = some p) :
+    ∃ v, vertexAt (assemble close slaves {} ops).2 i c = some v := by
+  obtain ⟨_, _, h3, h4⟩ := assemble_spec close hc slaves ops (inv_empty close S) hS
+  have hlt : i < (assemble close slaves {} ops).2.length := by
+    rw [h3]; exact (List.getElem?_eq_some_iff.mp ho).1
+  have hb : (assemble close slaves {} ops).2[i]? = some (assemble close slaves {} ops).2[i] :=
+    List.getElem?_eq_getElem hlt
+  have mb : (o, (assemble close slaves {} ops).2[i]) ∈ ops.zip (assemble close slaves {} ops).2 :=
+    List.mem_of_getElem? (i := i) (List.getElem?_zip_eq_some.mpr ⟨ho, hb⟩)
+  obtain ⟨hl, _⟩ := h4 _ mb
+  simp only at hl
+  have hcl : c < (assemble close slaves {} ops).2[i].length := by
+    rw [hl]
+    have := cornerCalls_get slaves o c
+    rw [hp] at this
+    exact (List.getElem?_eq_some_iff.mp this).1
+  exact ⟨_, by unfold vertexAt; rw [hb]; simp only [Option.bind_some]; exact List.getElem?_eq_getElem hcl⟩
+
+/-- the vertex of a corner sits at the corner (within the tolerance) -/
+theorem vertexAt_position {S : P → Prop} (hc : CloseEquivOn close S) (slaves : List N) (ops : List (Op P N))
+    (hS : ∀ op ∈ ops, ∀ p ∈ op.pts, S p) (i c : Nat) (o : Op P N) (p : P) (v : Vertex P)
+    (ho : ops[i]? = some o) (hp : o.pts[c]? = some p)
+    (hv : vertexAt (assemble close slaves {} ops).2 i c = some v) :
+    close p v.pos = true := by
+  obtain ⟨d, _, rfl, hk, _⟩ := placed_of_vertexAt close hc slaves ops hS ho hp hv
+  exact hk
 
 
 end PropsHelpers
